@@ -46,6 +46,31 @@ def obs_class(aspect, want, got):
     return "wrong-value"
 
 
+def want_intro(c, r):
+    return {"is_dataclass": True, "params": dict(r["intro"]["params"]),
+            "fields": [dict(f, name=L.NAMES[k]) for k, f in enumerate(r["intro"]["fields"])]}
+
+
+def intro_diff(want, got):
+    """-> list of (what, want, got) for every differing part of the introspection record"""
+    if not isinstance(got, dict):
+        return [("introspection", "record", got)]
+    out = []
+    if got.get("is_dataclass") is not True:
+        out.append(("is_dataclass", True, got.get("is_dataclass")))
+    for k, v in want["params"].items():
+        if got["params"].get(k) != v:
+            out.append(("params." + k, v, got["params"].get(k)))
+    if [f["name"] for f in got["fields"]] != [f["name"] for f in want["fields"]]:
+        out.append(("field-names", [f["name"] for f in want["fields"]], [f["name"] for f in got["fields"]]))
+    else:
+        for fw, fg in zip(want["fields"], got["fields"]):
+            for k in ("init", "repr", "cmp", "hash", "dflt"):
+                if fw[k] != fg[k]:
+                    out.append(("field." + k, fw[k], fg[k]))
+    return out
+
+
 def run(tier, seed):
     t0 = time.time()
     rng = random.Random(seed)
@@ -182,6 +207,9 @@ def run(tier, seed):
             want = [L.NAMES[k - 1] for k in crec[i]["margs"]["v"]] if crec[i]["margs"]["k"] == "names" else "absent"
             if pres["match_args"].get(str(i)) != want:
                 rep.spec_drift("__match_args__: spec vs dataclasses", {"cfg": by_id[i], "spec": want, "stdlib": pres["match_args"].get(str(i))})
+            d = intro_diff(want_intro(by_id[i], crec[i]), pres["intro"].get(str(i)))
+            if d:
+                rep.spec_drift("introspection: spec vs dataclasses", {"cfg": by_id[i], "diff": d})
     for b in pres["bad"][:20]:
         rep.spec_drift("history: spec vs dataclasses", {"cfg": by_id[hists[b["hist"]]["id"]], "bad": b,
                                                         "history": [[s["op"], s["i"], s["a"], s["kw"], s["s"]] for s in hists[b["hist"]]["h"]]})
@@ -244,6 +272,12 @@ def run(tier, seed):
                               "classattr_default_live": False},
                              obs_class("match_args", want, got), {"cfg": by_id[cid], "want": want, "got": got,
                                                                   "source": "\n".join(L.render_class(by_id[cid], bares[cid], True))})
+            n_checks += 1
+            for what, w, g in intro_diff(want_intro(by_id[cid], crec[cid]), r["intro"].get(str(cid))):
+                rep.disagree({"aspect": "introspection", "op": "static", "what": what, "expected": "value", "hazards": hz[cid],
+                              "classattr_default_live": False}, "wrong-value",
+                             {"cfg": by_id[cid], "what": what, "want": w, "got": g,
+                              "source": "\n".join(L.render_class(by_id[cid], bares[cid], True))})
         for bd in r["bad"]:
             h = hists[bd["hist"]]
             st = h["h"][bd["step"]] if bd["step"] >= 0 else {"op": "?", "live": False}
